@@ -79,6 +79,12 @@ def removeDotSegments (path : Str) : Str :=
   | '/' :: r => '/' :: joinWith ['/'] (dotLoop [] (splitSlash r))
   | _ => path
 
+/-- a path without its leading slash under a non-empty host gets the slash (what url.URL.String writes) -/
+def rootedPath (host path : Str) : Str :=
+  match host, path with
+  | _ :: _, c :: _ => if c = '/' then path else '/' :: path
+  | _, _ => path
+
 /-- makeURLKey over the components url.Parse delivers (path = EscapedPath) -/
 def makeURLKeyOf (scheme host path query opaq : Str) : Str :=
   if !opaq.isEmpty then opaq
@@ -87,7 +93,7 @@ def makeURLKeyOf (scheme host path query opaq : Str) : Str :=
     let defP := defaultPort scheme
     let port := if port0.isEmpty then defP else port0
     let hostPort := if !port.isEmpty && port ≠ defP then lowerASCII h ++ [':'] ++ port else lowerASCII h
-    let path := removeDotSegments (normalizePercentEncoding path)
+    let path := removeDotSegments (normalizePercentEncoding (rootedPath host path))
     let path := if path.isEmpty && (scheme = (str% "http") || scheme = (str% "https")) then ['/'] else path
     let base := scheme ++ (str% "://") ++ hostPort ++ path
     if query.isEmpty then base else base ++ ['?'] ++ normalizePercentEncoding query
